@@ -99,3 +99,72 @@ def lit(a):
         return np.asarray(a).tolist()
     except Exception:
         return repr(a)
+
+
+# --------------------------------------------------------------------------
+# process-wide state: pristine children and module-state fingerprints
+
+
+def in_child(fn, timeout=300):
+    """run fn() in a forked child of the calling process and return its (picklable) result.
+
+    Used where process-wide state (module-level caches, shared default objects,
+    C statics) is part of the explored state: the caller never executes esutil
+    itself, so every child starts from the same pristine module state and a
+    history is replayable in isolation.  A child that dies or raises is returned
+    as ("died", text)."""
+    import os
+    import pickle
+    import signal
+    import sys
+    import traceback
+    r, w = os.pipe()
+    sys.stdout.flush()
+    sys.stderr.flush()
+    pid = os.fork()
+    if pid == 0:
+        code = 0
+        try:
+            os.close(r)
+            signal.alarm(int(timeout))
+            try:
+                out = ("ok", fn())
+            except BaseException:
+                out = ("died", "raised: " + traceback.format_exc()[-1200:])
+            with os.fdopen(w, "wb") as f:
+                pickle.dump(out, f, protocol=4)
+        except BaseException:
+            code = 3
+        finally:
+            os._exit(code)
+    os.close(w)
+    data = b""
+    with os.fdopen(r, "rb") as f:
+        data = f.read()
+    _, status = os.waitpid(pid, 0)
+    if os.WIFSIGNALED(status):
+        return ("died", "child killed by signal %d" % os.WTERMSIG(status))
+    if not data:
+        return ("died", "child exited with status %d without a result" % os.WEXITSTATUS(status))
+    try:
+        return pickle.loads(data)
+    except Exception as e:
+        return ("died", "unreadable child result: %s" % e)
+
+
+def module_state(*modules):
+    """fingerprint of the mutable module-level data (dict/list/set/ndarray globals, and the
+    __dict__ of plain instances) of the given modules: module caches and shared defaults
+    that an operation may leave behind are part of the canonical state key"""
+    import types
+    items = []
+    for m in modules:
+        for k, v in sorted(vars(m).items()):
+            if k.startswith("__"):
+                continue
+            if isinstance(v, (dict, list, set, np.ndarray)):
+                items.append((m.__name__, k, fingerprint(v)))
+            elif not isinstance(v, (types.ModuleType, types.FunctionType, type, types.BuiltinFunctionType)) \
+                    and hasattr(v, "__dict__") and not callable(v):
+                items.append((m.__name__, k, fingerprint(v)))
+    return fingerprint(items)
